@@ -97,6 +97,7 @@ def run_tasks(tasks, budget_s, workers=None, stop_on_violation=False, progress=N
     t0 = time.time()
     done_tasks = 0
     cancelled = 0
+    t_first = None
     ctx = mp.get_context('fork')
     broken = None
     with cf.ProcessPoolExecutor(max_workers=workers, mp_context=ctx) as ex:
@@ -127,7 +128,12 @@ def run_tasks(tasks, budget_s, workers=None, stop_on_violation=False, progress=N
             if broken:
                 break
             over = (time.time() - t0) > budget_s
-            if over or (stop_on_violation and agg.violations):
+            if stop_on_violation and agg.violations and t_first is None:
+                t_first = time.time()
+            # after the first violation the batch goes on for a short while: a handful of candidates (some failures
+            # depend on object addresses and do not replay exactly; see driver) is worth more than the seconds saved
+            enough = t_first is not None and (len(agg.violations) >= 8 or time.time() - t_first > 12.0)
+            if over or enough:
                 exhausted = True
                 for f in list(pending):
                     if f.cancel():
